@@ -71,14 +71,14 @@ theorem mu_selectCore (sz : SizeLaw ops) (e : Env) (s : St Q) (it : Item) (t : T
             by_cases c7 : (!t.scriptsOk) = true
             · simp only [c7, if_true]; omega
             · simp only [c7, Bool.false_eq_true, if_false]; rw [mu_commit]; omega
-        by_cases csw : (!s.byFee && (decide (bpw ≥ e.prioSize) || decide (it.prio ≤ MIN_HIGH_PRIORITY_BITS))) = true
+        by_cases csw : (!s.byFee && (decide (bpw ≥ e.prioSize) || decide (it.prio ≤ e.minHighPrio))) = true
         · have hbf : s.byFee = false := by
             cases hb : s.byFee with
             | false => rfl
             | true => simp [hb] at csw
           have hsw := mu_switch sz s hbf
           simp only [csw, if_true, Bool.true_and]
-          by_cases c5 : (decide (bpw > e.prioSize) || decide (it.prio < MIN_HIGH_PRIORITY_BITS)) = true
+          by_cases c5 : (decide (bpw > e.prioSize) || decide (it.prio < e.minHighPrio)) = true
           · simp only [c5, if_true]
             show mu sz { switchSt ops s with queue := ops.push true (switchSt ops s).queue it } ≤ mu sz s + 1
             have : mu sz { switchSt ops s with queue := ops.push true (switchSt ops s).queue it }
